@@ -92,6 +92,16 @@ def replay_export(ctx, sc, k):
         got = 'fail'
     else:
         got = 'same' if kf.key_state(o[1]) == kf.key_state(key) else 'different'
+    if opt[0] == 'encrypted' and ipass == opt[1]:
+        # Import is a function of (encoded key, passphrase): attempts with another passphrase before and after change nothing
+        other = pp[3 - ipass]
+        hist = []
+        for attempt in (other, pw, other, pw):
+            oo = kf.outcome(Key.from_encoded_key, exported, passphrase=attempt)
+            hist.append('fail' if oo[0] == 'raise' else 'same' if kf.key_state(oo[1]) == kf.key_state(key) else 'different')
+        if hist != ['fail', 'same', 'fail', 'same']:
+            bad('C08:import:%s:%s:depends-on-earlier-attempts' % (cname, oname),
+                'imports of the same encrypted key with passphrases (other, right, other, right) gave %s; the model: fail, same, fail, same' % hist)
     pclass = 'no-passphrase' if not ipass else 'right-passphrase' if opt[0] != 'encrypted' or ipass == opt[1] else 'wrong-passphrase'
     if got != result:
         bad('C08:import:%s:%s:%s:model-%s-got-%s' % (cname, oname, pclass, result, got),
